@@ -132,6 +132,17 @@ inline std::vector<Pair> inverse_pairs(const geodtab::Ell& E, int level) {
     for (double la : {1e-10, -1e-10, 1e-3}) for (double d : {0.0, 1e-9, -1e-9, 1e-3}) { v.push_back({la, 0, la, (1 - E.f) * 180 + d, 'e'}); v.push_back({la, 0, -la, (1 - E.f) * 180 + d, 'e'}); }
     for (double lo : {1e-9, 28.6, 28.7, 90.0, 135.0, 179.0, 179.999999}) v.push_back({0, 0, 0, lo, 'e'});
   }
+  // (g) tiny latitudes (AngRound of the latitudes in GenInverse folds |lat| below about 1e-17 deg onto the equator; squares of smaller
+  //     values underflow): the equatorial answer is expected in closed form
+  {
+    std::vector<double> tl = T ? std::vector<double>{5e-324, -5e-324, 1e-310, -1e-310, 1e-200, -1e-200, 1e-160, -1e-160, 1e-155, -1e-155, 1e-100, -1e-100, 1e-20, -1e-20}
+                               : std::vector<double>{5e-324, -1e-160, 1e-155};
+    std::vector<double> ll = T ? std::vector<double>{1, 90, 179, 179.9} : std::vector<double>{1, 90};
+    for (double t : tl) for (double lo : ll) {
+      v.push_back({t, 0, 0.0, lo, 't'}); v.push_back({t, 0, t, lo, 't'});
+      if (T) { v.push_back({t, 0, -0.0, lo, 't'}); v.push_back({t, 0, 1e-9, lo, 't'}); }
+    }
+  }
   // (f) both ends next to a pole (opposite poles and the same pole): the region where the two formulas for alp12 in GenInverse
   //     (half-angle formula / difference of the azimuths) hand over; well separated in longitude so the geodesic is far from meridional
   {
@@ -154,6 +165,8 @@ inline std::vector<Pair> inverse_pairs(const geodtab::Ell& E, int level) {
 //  nearly-equatorial-steep: see below
 inline const char* pair_regime(const geodtab::Ell& E, const Pair& P, double a12) {
   long double l12 = fabsl(remainderl((long double)P.lon2 - (long double)P.lon1, 360.0L));
+  // equatorial-conjugate-ulp: both points ON the equator, lon12 beyond the equatorial conjugate distance (1-f)180 by at most 1e-12 deg
+  if (E.f > 0 && P.lat1 == 0 && P.lat2 == 0 && l12 > (1 - (long double)E.f) * 180 && l12 - (1 - (long double)E.f) * 180 <= 1e-12L) return "equatorial-conjugate-ulp";
   if (E.f > 0 && std::fabs(P.lat1) <= 1e-3 && std::fabs(P.lat2) <= 1e-3 && l12 < 28.6L && fabsl(l12 / (1 - (long double)E.f) - 180) <= 180e-6L)
     return "equatorial-conjugate-shortline";
   // nearly-equatorial-steep: both points within 0.001 deg of the equator but not both on it, longitude difference beyond (1-f)180 - 2 (oblate) or 170 deg (prolate):
